@@ -2,7 +2,7 @@
 # Run the repository's pinned suite (guard off; there is no guard in use) and compare with BASELINE.json stable_pass.
 REPO="${1:-/repo}"
 OUT=$(mktemp /tmp/junit.XXXX.xml)
-cd "$REPO" && /venv/bin/python -m pytest -ra -q -p no:cacheprovider --timeout=900 --continue-on-collection-errors -o log_cli=false --junitxml="$OUT" >/tmp/baseline_run.log 2>&1
+cd "$REPO" && PYTHONPATH="$REPO" /venv/bin/python -m pytest -ra -q -p no:cacheprovider --timeout=900 --continue-on-collection-errors -o log_cli=false --junitxml="$OUT" >/tmp/baseline_run.log 2>&1
 /venv/bin/python - "$OUT" <<'PY'
 import json, sys, xml.etree.ElementTree as ET
 b = json.load(open('/root/.vp/BASELINE.json'))
